@@ -294,7 +294,7 @@ def _d4(chk, fb):
         # members of KeyvalTools and file-local helpers of KeyvalTools.cpp that receive the flag
         if f.body is None or not (f.cls == "bpp::KeyvalTools" or f.file.endswith("Bpp/Text/KeyvalTools.cpp")):
             continue
-        flagnames = [p_["name"] for p_ in f.params if (p_.get("ty") or "") in ("bool", "const bool") and p_["name"] in ("nested", "isNested", "nestedBlocks")]
+        flagnames = [p_["name"] for p_ in f.params if (p_.get("ty") or "") in ("bool", "const bool") and "nest" in p_["name"].lower() and not p_["name"].lower().startswith(("no", "not", "without", "plain", "flat"))]
         if not flagnames:
             continue
         fl = flagnames[0]
